@@ -34,3 +34,38 @@ def headsCheck (bs : Blocks) (heads : List Nat) : Bool :=
     | none => false)
 
 end Defra.Crdt
+
+namespace Defra.Crdt
+
+/-- field-level part of the store check: the links of a composite belong to the composite's document, and the parents of a linked field block are linked by strict ancestors of the composite; the parents of a field
+    block are blocks of the same field -/
+def block3Ok (bs : Blocks) (b : Block) : Bool :=
+  match b.kind with
+  | .comp =>
+    b.links.all (fun l => match bs.get? l with
+      | some lb =>
+        lb.doc == b.doc &&
+        lb.parents.all (fun p => bs.any (fun ab =>
+          ab.kind == .comp && ab.id != b.id && ab.links.contains p && isMerged bs [b.id] ab.id ab.height))
+      | none => true)
+  | .field f => b.parents.all (fun p => match bs.get? p with
+      | some pb => pb.kind == .field f
+      | none => true)
+  | .col => true
+
+def wfCheck3 (bs : Blocks) : Bool := wfCheck bs && bs.all (block3Ok bs)
+
+/-- every head set of a kind that occurs in the store holds distinct stored blocks of that kind -/
+def kinvCheck (bs : Blocks) (s : DocState) : Bool :=
+  bs.all (fun x => decide (headsOf s x.kind).Nodup && (headsOf s x.kind).all (fun h => match bs.get? h with
+    | some hb => hb.kind == x.kind
+    | none => false))
+
+/-- what a merged composite links is merged into the head set of its kind -/
+def linkInvCheck (bs : Blocks) (s : DocState) : Bool :=
+  bs.all (fun ab => !(ab.kind == .comp && isMerged bs s.heads ab.id ab.height) ||
+    ab.links.all (fun l => match bs.get? l with
+      | some lb => isMerged bs (headsOf s lb.kind) l lb.height
+      | none => true))
+
+end Defra.Crdt
